@@ -36,15 +36,26 @@ import Cx.Model.MetaFind
   e.prefilter.Find(haystack, at), .LiteralLen()     (l.918-926, 947-955)                         Oracles.pfFind h at, Params.literalLen
   findIndicesTeddy / findIndicesTeddyAt                                       (l.901-927, 930-956)   findIndicesTeddy / findIndicesTeddyAt
   e.fatTeddyFallback != nil, fatTeddySmallHaystackThreshold = 64 (find.go l.571)                 Params2.hasFatFallback / .fatThreshold
-  e.fatTeddyFallback.Find(haystack, 0) / .FindAt(haystack, at) / .IsMatch(haystack)
-      (find.go l.585, 625; ismatch.go l.273)                                                     Oracles2.fatFind h 0 / .fatFindAt h at / .fatIsMatch h
-  findTeddy / findTeddyAt (find.go l.576-614, 617-653; span of the *Match)                        findTeddy / findTeddyAt
+      (compile.go l.609-625: built only for a Fat Teddy prefilter whose literal set has no nesting)   fatFallbackBuilt
+  e.fatTeddyFallback.Find(haystack, 0) / .Find(haystack, at) / .IsMatch(haystack)
+      (find.go l.585, 626; ismatch.go l.273)                                                     Oracles2.fatFind h 0 / .fatFind h at / .fatIsMatch h
+  findTeddy / findTeddyAt (find.go l.576-614, 617-654; span of the *Match)                        findTeddy / findTeddyAt
+      (as of a92eaaa `findTeddyAt` called the ANCHORED `fatTeddyFallback.FindAt`: kept as the wrong variant
+       `findTeddyAtAnchored` over `Oracles2.fatFindAt`, `cex_fat_findAt_anchored`)
   isMatchTeddy                                                                (ismatch.go l.265-278)   isMatchTeddy
   e.ahoCorasick != nil; e.ahoCorasick.Find(haystack, at); .IsMatch(haystack)
-      (find_indices.go l.1159, 1173; ismatch.go l.341)                                           Params2.hasAho; Oracles2.ahoFind h at; .ahoIsMatch h
-  findIndicesAhoCorasick / findIndicesAhoCorasickAt                  (find_indices.go l.1153-1164, 1167-1178)   findIndicesAhoCorasick / …At
+      (find_indices.go l.1172; ismatch.go l.341)                                                 Params2.hasAho; Oracles2.ahoFind h at; .ahoIsMatch h
+  e.ahoCorasickNested, e.ahoCorasickMaxLen (engine.go l.99-100; compile.go l.136-145)            Params2.acNested / .acMaxLen
+  ahoCorasickSpan(haystack, at)                                      (find_indices.go l.1171-1186)   ahoCorasickSpan
+      `lo := m.End - e.ahoCorasickMaxLen; if lo < at { lo = at }` (Go ints)                      `max at (e - acMaxLen)` (Nat: truncated, same value)
+      `state.pikevm.SearchWithSlotTableAt(haystack, lo, nfa.SearchModeFind)`                     Oracles.pike h lo  (as in findIndicesNFAAt)
+  findIndicesAhoCorasick / findIndicesAhoCorasickAt                  (find_indices.go l.1153-1160, 1189-1196)   findIndicesAhoCorasick / …At
   isMatchAhoCorasick                                                          (ismatch.go l.336-342)   isMatchAhoCorasick
-  findAhoCorasick / findAhoCorasickAt (find.go l.726-737, 740-751; span of the *Match)             findAhoCorasick / findAhoCorasickAt
+  findAhoCorasick / findAhoCorasickAt (find.go l.727-738, 741-752; span of the *Match)             findAhoCorasick / findAhoCorasickAt
+  prefilter.HasNestedLiteral(lits)                                   (prefilter/ahocorasick.go l.68-77)   hasNestedLiteral  (`bytes.Contains` = containsSub)
+  the `maxLen` loops of compile.go l.136-138 / newACPrefilter l.41-43                            litMaxLen
+  (p *AhoCorasickPrefilter) Find(haystack, start)                    (prefilter/ahocorasick.go l.80-106)  ahoPrefilterFind (over the automaton's
+      p.ac.Find / p.ac.FindAt, p.nested, p.maxLen)                                                 `Find` / `FindAt` as function arguments)
   Find / FindAt / findAtZero / findAtNonZero restricted to the three strategies (find.go l.29-155)   engineFindAt
 
   e.anchoredSuffix, bytes.HasSuffix(haystack, e.anchoredSuffix)               (ismatch.go l.204)   Params2.anchoredSuffix, hasSuffix
@@ -87,7 +98,8 @@ structure Oracles2 extends MetaFind.Oracles where
   ahoIsMatch : Bytes → Bool
   /-- `fatTeddyFallback.Find(haystack, start)` -/
   fatFind : Bytes → Nat → Option Span
-  /-- `fatTeddyFallback.FindAt(haystack, at)` -/
+  /-- `fatTeddyFallback.FindAt(haystack, at)`, the ANCHORED match at `at` — no longer called (HEAD: `findTeddyAt` calls `Find`);
+      kept for the wrong variant `findTeddyAtAnchored` and the driver protocol -/
   fatFindAt : Bytes → Nat → Option Span
   /-- `fatTeddyFallback.IsMatch(haystack)` -/
   fatIsMatch : Bytes → Bool
@@ -99,6 +111,11 @@ structure Params2 extends MetaFind.Params where
   hasDigitPrefilter : Bool := false
   digitRunSkipSafe : Bool := false
   hasAho : Bool := false
+  /-- `e.ahoCorasickNested`: a literal of the Aho-Corasick set occurs inside another one -/
+  acNested : Bool := false
+  /-- `e.ahoCorasickMaxLen`: the length of the longest literal of the Aho-Corasick set -/
+  acMaxLen : Nat := 0
+  /-- `e.fatTeddyFallback != nil` (built only for literal sets without nesting: `fatFallbackBuilt`) -/
   hasFatFallback : Bool := false
   /-- `fatTeddySmallHaystackThreshold` -/
   fatThreshold : Nat := 64
@@ -369,8 +386,14 @@ def findTeddy (O : Oracles2) (P : Params2) (h : Bytes) : Option Span :=
   else if useFatFallback P h then O.fatFind h 0
   else teddyFrom (O.pike h) O P h 0
 
-/-- `findTeddyAt(haystack, at)` (find.go): the small-haystack fallback calls `FindAt`, not `Find` -/
+/-- `findTeddyAt(haystack, at)` (find.go): the small-haystack fallback SEARCHES from `at` (`fatTeddyFallback.Find(haystack, at)`) -/
 def findTeddyAt (O : Oracles2) (P : Params2) (h : Bytes) (at_ : Nat) : Option Span :=
+  if !P.hasPrefilter || decide (at_ ≥ h.size) then O.pike h at_
+  else if useFatFallback P h then O.fatFind h at_
+  else teddyFrom (O.pike h) O P h at_
+
+/-- WRONG variant (the code as of a92eaaa): the small-haystack fallback calls the anchored `FindAt` as if it were a search -/
+def findTeddyAtAnchored (O : Oracles2) (P : Params2) (h : Bytes) (at_ : Nat) : Option Span :=
   if !P.hasPrefilter || decide (at_ ≥ h.size) then O.pike h at_
   else if useFatFallback P h then O.fatFindAt h at_
   else teddyFrom (O.pike h) O P h at_
@@ -383,30 +406,102 @@ def isMatchTeddy (O : Oracles2) (P : Params2) (h : Bytes) : Bool :=
 
 /-! ### UseAhoCorasick -/
 
+/-- `ahoCorasickSpan(haystack, at)`: the automaton reports the occurrence that ENDS first; it is returned as it is only when no
+    literal occurs inside another one, otherwise the Pike VM decides from `lo = max(at, end − ahoCorasickMaxLen)` -/
+def ahoCorasickSpan (O : Oracles2) (P : Params2) (h : Bytes) (at_ : Nat) : Option Span :=
+  match O.ahoFind h at_ with
+  | none => none                                                   -- !found
+  | some (s, e) =>
+    if !P.acNested then some (s, e)                                -- return m.Start, m.End, true
+    else O.pike h (max at_ (e - P.acMaxLen))                       -- lo := m.End - maxLen; if lo < at { lo = at }
+
+/-- WRONG variant (the code as of a92eaaa, before the fix commits): the automaton's answer returned as it is, whatever the literal set -/
+def ahoCorasickSpanDirect (O : Oracles2) (_P : Params2) (h : Bytes) (at_ : Nat) : Option Span := O.ahoFind h at_
+
 /-- `findIndicesAhoCorasick(haystack)` -/
 def findIndicesAhoCorasick (O : Oracles2) (P : Params2) (h : Bytes) : Option Span :=
   if !P.hasAho then MetaFind.findIndicesNFA O.toOracles P.toParams h
-  else O.ahoFind h 0
+  else ahoCorasickSpan O P h 0
 
 /-- `findIndicesAhoCorasickAt(haystack, at)` -/
 def findIndicesAhoCorasickAt (O : Oracles2) (P : Params2) (h : Bytes) (at_ : Nat) : Option Span :=
   if !P.hasAho || decide (at_ ≥ h.size) then MetaFind.findIndicesNFAAt O.toOracles P.toParams h at_
-  else O.ahoFind h at_
+  else ahoCorasickSpan O P h at_
 
-/-- `findAhoCorasick(haystack)` (find.go l.726-737), span of the `*Match` -/
+/-- `findAhoCorasick(haystack)` (find.go), span of the `*Match` -/
 def findAhoCorasick (O : Oracles2) (P : Params2) (h : Bytes) : Option Span :=
   if !P.hasAho then O.pike h 0
-  else O.ahoFind h 0
+  else ahoCorasickSpan O P h 0
 
-/-- `findAhoCorasickAt(haystack, at)` (find.go l.740-751) -/
+/-- `findAhoCorasickAt(haystack, at)` (find.go) -/
 def findAhoCorasickAt (O : Oracles2) (P : Params2) (h : Bytes) (at_ : Nat) : Option Span :=
   if !P.hasAho || decide (at_ ≥ h.size) then O.pike h at_
-  else O.ahoFind h at_
+  else ahoCorasickSpan O P h at_
 
 /-- `isMatchAhoCorasick(haystack)` -/
 def isMatchAhoCorasick (O : Oracles2) (P : Params2) (h : Bytes) : Bool :=
   if !P.hasAho then MetaFind.isMatchNFA O.toOracles P.toParams h
   else O.ahoIsMatch h
+
+/-! ### literal sets: `HasNestedLiteral`, the longest literal, the leftmost-first reference of an alternation of literals -/
+
+/-- `bytes.Contains(b, a)` -/
+def containsSub (b a : Bytes) : Bool := (List.range (b.size + 1)).any fun p => occursAt b a p
+
+/-- `prefilter.HasNestedLiteral(lits)`: `for i, a := range lits { for j, b := range lits {
+    if i != j && len(a) <= len(b) && bytes.Contains(b, a) { return true } } }` -/
+def hasNestedLiteral (lits : List Bytes) : Bool :=
+  (List.range lits.length).any fun i => (List.range lits.length).any fun j =>
+    decide (i ≠ j) && decide ((lits.getD i #[]).size ≤ (lits.getD j #[]).size) && containsSub (lits.getD j #[]) (lits.getD i #[])
+
+/-- the `maxLen` loop of compile.go / `newACPrefilter`: the length of the longest literal -/
+def litMaxLen (lits : List Bytes) : Nat := lits.foldl (fun m l => max m l.size) 0
+
+/-- compile.go l.609-625: the small-haystack automaton is built only for a Fat Teddy prefilter whose literals are not nested -/
+def fatFallbackBuilt (isFatTeddy : Bool) (lits : List Bytes) : Bool := isFatTeddy && !hasNestedLiteral lits
+
+/-- some literal of the set occurs at `p` -/
+def anyLitAt (lits : List Bytes) (h : Bytes) (p : Nat) : Bool := lits.any fun l => occursAt h l p
+
+/-- **the reference search of an alternation of literals** `l₀|l₁|…` (leftmost-first): the leftmost position `≥ a` where some
+    literal occurs, and there the FIRST literal in list order that occurs -/
+def refLit (lits : List Bytes) (h : Bytes) (a : Nat) : Option Span :=
+  match findFirst (anyLitAt lits h) a (h.size + 1 - a) with
+  | none => none
+  | some p => (lits.find? fun l => occursAt h l p).map fun l => (p, p + l.size)
+
+/-- what an Aho-Corasick automaton that stops at its first accepting state computes (brute force; the driver, the counter-models
+    and the non-vacuity instance): the least END `e` of an occurrence starting at or after `a`, and the LONGEST literal that ends
+    there (github.com/coregx/ahocorasick v0.3.0: `matches[0]` of the state = its own pattern, then those of the failure chain) -/
+def endsFirst (lits : List Bytes) (h : Bytes) (a : Nat) : Option Span :=
+  match findFirst (fun e => (List.range (e + 1 - a)).any fun k => lits.any fun l => decide (a + k + l.size = e) && occursAt h l (a + k))
+      a (h.size + 1 - a) with
+  | none => none
+  | some e =>
+    (findFirst (fun s => lits.any fun l => decide (s + l.size = e) && occursAt h l s) a (e + 1 - a)).map fun s => (s, e)
+
+/-! ### `prefilter.AhoCorasickPrefilter.Find` -/
+
+/-- `(p *AhoCorasickPrefilter) Find(haystack, start)`; `find` / `findAt` = `p.ac.Find` / `p.ac.FindAt` (the search and the anchored
+    match of the dependency's automaton), `nested` / `maxLen` = `p.nested` / `p.maxLen` -/
+def ahoPrefilterFind (find findAt : Bytes → Nat → Option Span) (nested : Bool) (maxLen : Nat) (h : Bytes) (start : Nat) :
+    Option Nat :=
+  if start ≥ h.size then none                                       -- start < 0 || start >= len(haystack)
+  else
+    match find h start with
+    | none => none                                                  -- !found
+    | some (s, e) =>
+      if !nested then some s                                        -- return m.Start
+      else
+        let lo := max start (e - maxLen)                            -- lo := m.End - p.maxLen; if lo < start { lo = start }
+        -- for pos := lo; pos < m.Start; pos++ { if _, ok := p.ac.FindAt(haystack, pos); ok { return pos } }
+        match findFirst (fun pos => (findAt h pos).isSome) lo (s - lo) with
+        | some pos => some pos
+        | none => some s                                            -- return m.Start
+
+/-- WRONG variant (the code before the fix): `m.Start` returned whatever the literal set -/
+def ahoPrefilterFindDirect (find : Bytes → Nat → Option Span) (h : Bytes) (start : Nat) : Option Nat :=
+  if start ≥ h.size then none else (find h start).map (·.1)
 
 /-! ### `isMatchBoundedBacktracker` -/
 
